@@ -21,6 +21,9 @@ pub proof fn lemma_tiny_text<const N: usize>(t: tinystr::TinyAsciiStr<N>)
     assert(text(u) == text(t));
 }
 
+/// alias of `text` (for functions that have a local variable called `text`)
+pub open spec fn txt<const N: usize>(t: tinystr::TinyAsciiStr<N>) -> Seq<u8> { text(t) }
+
 pub open spec fn texts<const N: usize>(s: Seq<tinystr::TinyAsciiStr<N>>) -> Seq<Seq<u8>> {
     Seq::new(s.len(), |i: int| text(s[i]))
 }
@@ -112,10 +115,10 @@ pub open spec fn u_wf(v: UView) -> bool {
 // ---------------------------------------------------------------------------------------
 pub open spec fn lang_shaped(s: Seq<u8>) -> bool { all_alpha(s) && 2 <= s.len() && s.len() <= 8 }
 
-pub open spec fn t_has_lang(t: Seq<Seq<u8>>, a: int) -> bool { 0 <= a < t.len() && lang_shaped(t[a]) }
-/// first subtag after the tlang (or `a` when there is none)
-pub open spec fn t_f0(t: Seq<Seq<u8>>, a: int) -> int {
-    if t_has_lang(t, a) && is_language(t[a]) { a + lid_end(t.skip(a)) } else { a }
+pub open spec fn t_has_lang(t: Seq<Seq<u8>>) -> bool { 0 < t.len() && lang_shaped(t[0]) }
+/// first subtag after the tlang (or 0 when there is none)
+pub open spec fn t_f0(t: Seq<Seq<u8>>) -> int {
+    if t_has_lang(t) && is_language(t[0]) { lid_end(t) } else { 0 }
 }
 /// the field region ends at the first 1-byte subtag (the next singleton) or at the end of input
 pub open spec fn tf_end(t: Seq<Seq<u8>>, a: int) -> int
@@ -123,28 +126,29 @@ pub open spec fn tf_end(t: Seq<Seq<u8>>, a: int) -> int
 {
     if 0 <= a < t.len() && t[a].len() != 1 { tf_end(t, a + 1) } else { a }
 }
-pub open spec fn t_has_fields(t: Seq<Seq<u8>>, a: int) -> bool { t_f0(t, a) < t.len() && is_tkey(t[t_f0(t, a)]) }
-pub open spec fn t_end(t: Seq<Seq<u8>>, a: int) -> int {
-    if t_has_fields(t, a) { tf_end(t, t_f0(t, a)) } else { t_f0(t, a) }
+pub open spec fn t_has_fields(t: Seq<Seq<u8>>) -> bool { 0 <= t_f0(t) < t.len() && is_tkey(t[t_f0(t)]) }
+/// number of subtags the -t- body consumes
+pub open spec fn t_end(t: Seq<Seq<u8>>) -> int {
+    if t_has_fields(t) { tf_end(t, t_f0(t)) } else { t_f0(t) }
 }
-pub open spec fn t_fields_ok(t: Seq<Seq<u8>>, a: int) -> bool {
-    forall|i: int| t_f0(t, a) <= i < t_end(t, a) ==> is_tkey(#[trigger] t[i]) || is_utype(t[i])
+pub open spec fn t_fields_ok(t: Seq<Seq<u8>>) -> bool {
+    forall|i: int| t_f0(t) <= i < t_end(t) ==> is_tkey(#[trigger] t[i]) || is_utype(t[i])
 }
-/// the -t- body starting at `a` must be rejected
-pub open spec fn t_err(t: Seq<Seq<u8>>, a: int) -> bool {
-    ||| (t_has_lang(t, a) && !is_language(t[a]))                                   // 4-letter "language"
-    ||| (t_has_lang(t, a) && t_f0(t, a) < t.len() && lang_shaped(t[t_f0(t, a)]))   // second tlang
-    ||| (t_has_fields(t, a) && !t_fields_ok(t, a))                                 // malformed tvalue
+/// the -t- body must be rejected
+pub open spec fn t_err(t: Seq<Seq<u8>>) -> bool {
+    ||| (t_has_lang(t) && !is_language(t[0]))                                          // 4-letter "language"
+    ||| (t_has_lang(t) && 0 <= t_f0(t) < t.len() && lang_shaped(t[t_f0(t)]))           // second tlang
+    ||| (t_has_fields(t) && !t_fields_ok(t))                                           // malformed tvalue
 }
 pub struct TView {
     pub has_lang: bool,
     pub lang: LidView,
     pub fields: Map<tinystr::TinyAsciiStr<4>, Seq<Seq<u8>>>,
 }
-pub open spec fn t_expected(t: Seq<Seq<u8>>, a: int, v: TView) -> bool {
-    &&& v.has_lang == t_has_lang(t, a)
-    &&& v.has_lang ==> lid_expected(t.skip(a), v.lang)
-    &&& v.fields == kv_fold(t, t_f0(t, a), t_end(t, a), false)
+pub open spec fn t_expected(t: Seq<Seq<u8>>, v: TView) -> bool {
+    &&& v.has_lang == t_has_lang(t)
+    &&& v.has_lang ==> lid_expected(t, v.lang)
+    &&& v.fields == kv_fold(t, t_f0(t), t_end(t), false)
 }
 pub open spec fn t_wf(v: TView) -> bool {
     &&& forall|k: tinystr::TinyAsciiStr<4>| v.fields.contains_key(k) ==> is_tkey(text(k)) && lower(text(k)) == text(k)
@@ -174,37 +178,38 @@ pub open spec fn singleton(s: Seq<u8>) -> Sing {
 }
 
 pub struct EView {
-    pub u: Option<(int, int)>,   // [a, e) of the -u- body in t
-    pub t: Option<int>,          // start of the -t- body
-    pub x: Option<int>,          // start of the -x- body
+    pub u: Option<Seq<Seq<u8>>>,   // the subtags following the `u` singleton (the -u- body is a prefix of it)
+    pub t: Option<Seq<Seq<u8>>>,   // ... following `t`
+    pub x: Option<Seq<Seq<u8>>>,   // ... following `x` (all of it is the -x- body)
 }
 pub enum ERes { Err, Ok(EView) }
 
-/// recogniser for the extension part, from index i; `ev` accumulates what was seen
-pub open spec fn ext_parse(t: Seq<Seq<u8>>, i: int, ev: EView) -> ERes
-    decreases t.len() - i
+/// recogniser for the extension part; `ev` accumulates what was seen so far
+pub open spec fn ext_parse(t: Seq<Seq<u8>>, ev: EView) -> ERes
+    decreases t.len()
 {
-    if i < 0 || i >= t.len() {
+    if t.len() == 0 {
         ERes::Ok(ev)
     } else {
-        match singleton(t[i]) {
-            Sing::Empty => ext_parse(t, i + 1, ev),
+        let body = t.skip(1);
+        match singleton(t[0]) {
+            Sing::Empty => ext_parse(body, ev),
             Sing::Multi => ERes::Err,
             Sing::Other => ERes::Err,
             Sing::U => {
-                let e = u_end(t, i + 1);
-                if ev.u is Some || !u_keys_ok(t, i + 1, e) { ERes::Err }
-                else if e <= i || e > t.len() { ERes::Err }   // dead: u_end(t, i + 1) > i (lemma_u_end_bounds)
-                else { ext_parse(t, e, EView { u: Some((i + 1, e)), ..ev }) }
+                let e = u_end(body, 0);
+                if ev.u is Some || !u_keys_ok(body, 0, e) { ERes::Err }
+                else if e < 0 || e > body.len() { ERes::Err }   // dead (lemma_u_end_bounds)
+                else { ext_parse(body.skip(e), EView { u: Some(body), ..ev }) }
             },
             Sing::T => {
-                let e = t_end(t, i + 1);
-                if ev.t is Some || t_err(t, i + 1) { ERes::Err }
-                else if e <= i || e > t.len() { ERes::Err }   // dead: t_end(t, i + 1) > i (lemma_t_end_bounds)
-                else { ext_parse(t, e, EView { t: Some(i + 1), ..ev }) }
+                let e = t_end(body);
+                if ev.t is Some || t_err(body) { ERes::Err }
+                else if e < 0 || e > body.len() { ERes::Err }   // dead (lemma_t_end_bounds)
+                else { ext_parse(body.skip(e), EView { t: Some(body), ..ev }) }
             },
             Sing::X => {
-                if x_ok(t, i + 1) { ERes::Ok(EView { x: Some(i + 1), ..ev }) } else { ERes::Err }
+                if x_ok(body, 0) { ERes::Ok(EView { x: Some(body), ..ev }) } else { ERes::Err }
             },
         }
     }
@@ -330,4 +335,27 @@ pub proof fn lemma_u_end_gt(t: Seq<Seq<u8>>, a: int, k: int)
     decreases k - a,
 {
     if a < k { lemma_u_end_gt(t, a + 1, k); } else { lemma_u_end_bounds(t, a + 1); }
+}
+
+pub proof fn lemma_tf_end_gt(t: Seq<Seq<u8>>, a: int, k: int)
+    requires
+        0 <= a <= k < t.len(),
+        forall|i: int| a <= i <= k ==> (#[trigger] t[i]).len() != 1,
+    ensures tf_end(t, a) > k,
+    decreases k - a,
+{
+    if a < k { lemma_tf_end_gt(t, a + 1, k); } else { lemma_tf_end_bounds(t, a + 1); }
+}
+pub proof fn lemma_kv_wf_insert(m: Map<tinystr::TinyAsciiStr<4>, Seq<Seq<u8>>>, k: tinystr::TinyAsciiStr<4>, v: Seq<Seq<u8>>, mode: bool)
+    requires
+        kv_wf(m, mode),
+        vals_wf(v),
+        (if mode { is_ukey(text(k)) } else { is_tkey(text(k)) }) && lower(text(k)) == text(k),
+    ensures kv_wf(m.insert(k, v), mode),
+{
+    let nm = m.insert(k, v);
+    assert forall|kk: tinystr::TinyAsciiStr<4>, i: int| nm.contains_key(kk) && 0 <= i < nm[kk].len() implies
+        is_utype(#[trigger] nm[kk][i]) && lower(nm[kk][i]) == nm[kk][i] && nm[kk][i] != true_word() by {
+        if kk == k { assert(nm[kk][i] == v[i]); } else { assert(m.contains_key(kk) && nm[kk] == m[kk]); }
+    }
 }
